@@ -49,6 +49,11 @@ def propagation_gaps(s, ev):
 
 def check_event(s, ev, out):
     op = ev['op'][0]
+    if op == 'rep' and ev.get('unit') is not None:
+        u = ev['unit']
+        if (ev.get('outcome') == 'success' and ev.get('newset')
+                and u.target in ev['before'][u.jobid][0]):
+            out.label('new-values-from-a-unit-queued-again-meanwhile')
     if op == 'tick':
         # units a failed dispatch (injected database fault) took from the
         # scheduler but could not release yet: for the scheduler they are
@@ -437,6 +442,52 @@ def _e2e_case():
     return build()
 
 
+def _overtaken():
+    '''skeleton histories: along a generated dependency path A -> B (-> C)
+    B is released, A runs again and reports new values while B is in flight
+    (B is queued again under the newer run ID), then B's first result
+    arrives; generated operations are interleaved between the steps'''
+    from hypothesis import strategies as st
+
+    from .. import engines
+
+    @st.composite
+    def build(draw):
+        spec = draw(engines.specs(
+            max_algs=5, max_pkgs=2, min_algs=3, feedback=False,
+            kinds=('task', 'task', 'task', 'analysis', 'regress'),
+            levels=('alg', 'sv', 'val')))
+        ref = engines.RefGraph(spec)
+        pairs = [(ref.tag.index(p), ref.tag.index(c))
+                 for c in ref.tag for p in sorted(ref.parents[c])]
+        targets = draw(st.lists(st.sampled_from(sim.TARGET_POOL[:3]),
+                                unique=True, min_size=1, max_size=2))
+        ops = []
+        noise = sim.op_strategy({'auto2': 4, 'tgt': 0})
+        if pairs:
+            a, b = draw(st.sampled_from(pairs))
+            new = st.sampled_from([4095, 4095, 4095, 1, 2, 3])
+            skeleton = [
+                ['req', [a], [0]], ['tick'],
+                ['repu', a, 0, draw(new), 1], ['tick'],      # B released
+                ['req', [a], [0]], ['tick'],
+                ['repu', a, 0, draw(new), 1],                # B queued again
+                ['repu', b, 0, draw(new), draw(st.integers(0, 1))],
+                ['tick'], ['repu', b, 0, draw(st.sampled_from([0, 4095])), 0],
+                ['tick'],
+            ]
+            for step in skeleton:
+                if draw(st.integers(0, 5)) == 0:
+                    ops.append(draw(noise))
+                ops.append(step)
+        ops += draw(st.lists(noise, max_size=10))
+        return {'spec': spec, 'targets': targets, 'bumped': [],
+                'workers': 4, 'ops': ops,
+                'seg': draw(st.sampled_from([0, 0, 0, 5]))}
+
+    return build()
+
+
 def parts(tier):
     q = tier == 'quick'
     return [
@@ -465,6 +516,10 @@ def parts(tier):
             ),
             cases=400 if q else 10000, batch=200,
         ),
+        # chains of tasks where upstream algorithms run again while their
+        # dependents are in flight (a unit is overtaken by a newer event)
+        core.Part('overtake', execute, strategy=_overtaken(),
+                  cases=600 if q else 15000, batch=200),
         core.Part('e2e', exec_e2e, strategy=_e2e_case,
                   cases=200 if q else 6000, batch=40),
     ]
